@@ -256,6 +256,16 @@ func (h *NFSProcedureHandler) handleRename(body io.Reader, reply *RPCReply, auth
 	}
 
 	// R23: Return NFS error instead of nil,err
+	// Both handles must name directories (as REMOVE and RMDIR check).
+	for _, d := range []*NFSNode{srcDir, dstDir} {
+		d.mu.RLock()
+		isDir := d.attrs.Mode&os.ModeDir != 0
+		d.mu.RUnlock()
+		if !isDir {
+			return nfsErrorWithDoubleWcc(reply, NFSERR_NOTDIR), nil
+		}
+	}
+
 	srcDirPreAttrs, err := h.server.handler.GetAttr(srcDir)
 	if err != nil {
 		return nfsErrorWithDoubleWcc(reply, mapError(err)), nil
